@@ -244,7 +244,11 @@ func (env *ecEnv) decrypt(v, k string) (string, error) {
 		s.Logf("Decryptor call %d fails (injected)", n)
 		return "", harness.ErrInjected
 	}
-	return encryptcookie.DecryptCookie(v, k)
+	out, err := encryptcookie.DecryptCookie(v, k)
+	if env.yields {
+		simrt.Yield(2004) // other requests may run between the Decryptor's return and the use of its result
+	}
+	return out, err
 }
 
 func (env *ecEnv) mkApp(k string, wrap bool) *fiber.App {
